@@ -8,7 +8,7 @@ import threading
 import time
 
 from .. import common, gen, probe
-from ..sched import Sched
+from ..sched import LateHandles, Sched
 
 PROP = 'C15'
 LEVEL = 'exploration'
@@ -48,7 +48,7 @@ def schedule(dc, sc, res, rng, label, kind):
         res.count('contenders_with_pickled_handles', sum(1 for c in caches if c is not base))
     else:
         base = dc.Cache(d, timeout=0)
-        caches = [base if topo == 'shared' else dc.Cache(d, timeout=0) for _ in range(n)]
+        caches = LateHandles(rng, n, lambda: dc.Cache(d, timeout=0), shared=base if topo == 'shared' else None, reopen=0.0)
     value = rng.randrange(1, 4) if kind == 'semaphore' else 1
     # the lock lives under an ordinary cache key: any key is legal, falsy ones too
     lock_key = rng.choice(['the-lock', 'the-lock', '', 0, b'', ('lock', 1), 0.0])
@@ -211,7 +211,7 @@ def schedule(dc, sc, res, rng, label, kind):
                         'events_head': events[:16]})
     finally:
         probe.set_controller(None)
-        for c in list({id(x): x for x in caches + [base]}.values()):
+        for c in list({id(x): x for x in (caches.all() if hasattr(caches, 'all') else caches) + [base]}.values()):
             try:
                 c.close()
             except Exception:      # noqa: BLE001
